@@ -68,13 +68,20 @@ def _format_keys(
             # Look for the key in the config
             for _name, ksk in config.ksk_keys.items():
                 if ksk.label == this.label:
-                    dnskey = public_key_to_dnssec_key(
-                        public_key=this.pubkey,
-                        key_identifier=this.label,
-                        algorithm=ksk.algorithm,
-                        flags=FlagsDNSKEY.SEP.value | FlagsDNSKEY.ZONE.value,
-                        ttl=0,
-                    )
+                    try:
+                        dnskey = public_key_to_dnssec_key(
+                            public_key=this.pubkey,
+                            key_identifier=this.label,
+                            algorithm=ksk.algorithm,
+                            flags=FlagsDNSKEY.SEP.value | FlagsDNSKEY.ZONE.value,
+                            ttl=0,
+                        )
+                    except ValueError as exc:
+                        # The key in the HSM does not fit the algorithm configured for this KSK
+                        ksk_info = (
+                            f"BAD KSK '{ksk.label}/{ksk.description}': {str(exc)}"
+                        )
+                        break
 
                     dns = DNSRecords.from_key(dnskey)
 
